@@ -398,7 +398,7 @@ func FuzzC09(f *testing.F) {
 			err = checkC09(c, st)
 		}()
 		if err != nil {
-			t.Fatalf("C09 violated: %v\n%s", err, c.Describe())
+			fuzzFail(t, "C09", c, err)
 		}
 	})
 }
